@@ -233,6 +233,17 @@ def build_cases(tier, wd):
                      f"<msubsup>{a}{b}{c}</msubsup>", f"<munderover><mo>∑</mo>{a}{b}</munderover>", f"<mroot>{a}{b}</mroot>", f"<msub><mi>x</mi>{a}</msub>{b}",
                      f"<mtable><mtr><mtd>{a}</mtd><mtd>{b}</mtd></mtr></mtable>", f"<msqrt>{a}{b}</msqrt>"):
             cases.append({"mathml": f"<math>{body}</math>", "origin": "adjacent-wrappers", "idmode": "none", "spicy": True, "locale": None})
+    # a semantics wrapper around a single-child wrapper around a token / 2-D element (what LaTeXML and MathJax emit), with an author id
+    # on every subset of the three: the two wrappers vanish, an id on the inner element stays on it
+    inner = ["<mi{I}>x</mi>", "<mn{I}>42</mn>", "<mfrac{I}><mi>a</mi><mi>b</mi></mfrac>", "<msup{I}><mi>x</mi><mn>2</mn></msup>", "<msqrt{I}><mi>x</mi></msqrt>"]
+    for wi, wrapper in enumerate(["mrow", "mstyle displaystyle='true'", "mpadded width='1em'", "mrow class='MJX-TeXAtom-ORD'"]):
+        for ii, inn in enumerate(inner):
+            for mask in range(8):
+                ids_ = ["p1.m1" if mask & 1 else "", "p1.m1.w" if mask & 2 else "", "p1.m1.1" if mask & 4 else ""]
+                at = [f" id='{x_}'" if x_ else "" for x_ in ids_]
+                body = f"<semantics{at[0]}><{wrapper}{at[1]}>{inn.replace('{I}', at[2])}</{wrapper.split()[0]}><annotation encoding='application/x-tex'>x</annotation></semantics>"
+                for h in ("<math>{}</math>", "<math><mi>y</mi><mo>=</mo>{}</math>"):
+                    cases.append({"mathml": h.format(body), "origin": "semantics-wrapper", "idmode": "asis", "spicy": False, "locale": None})
     # every child list of an mmultiscripts: sequences of scripts, <none/>, empty rows and <mprescripts/> (in every position, also
     # twice) of length <= 5 behind the base - the clean-up pairs scripts up and "repairs" misplaced separators by index arithmetic
     kinds = ["<mi>a</mi>", "<none/>", "<mprescripts/>", "<mrow/>"]
